@@ -271,4 +271,19 @@ func (s *keystore) executeOperation(op opType, ctx context.Context, keys []mh.Mu
   ensures [answer-unchanged] imp($got, result0 == $resp.multihashes && result1 == $resp.size && result2 == $resp.found && result3 == $resp.err)
   ghost at send(s.requests): assert($msg.op == op && $msg.ctx == ctx && $msg.keys == keys && $msg.prefix == prefix && $msg.limit == limit && $msg.response == response && cap(response) == 1)
   ghost at recv(response): $resp = $msg; $got = true
+
+# ---- emptying a datastore (C20) ---------------------------------------------------
+# a result of the key query that carries an error is never acted upon (no delete
+# is issued for it) and ends the operation with an error - also when that result
+# arrives right at a batch boundary ($qerr: the error of the current result,
+# captured when the iteration starts)
+func (s *keystore) empty(ctx context.Context, d ds.Batching) error
+  props C20
+  ghostvar $qerr error = nil
+  ghostvar $bad bool = false
+  modifies *
+  ensures [query-error-is-reported] imp($bad, result != nil)
+  loop 0 invariant !$bad
+  ghost at before call(Err)#0: $qerr = err; $bad = $bad || (err != nil)
+  ghost at before call(Delete): assert($qerr == nil)
 @*/
